@@ -2,6 +2,8 @@
 import GluonModel.Driver.Codec
 import GluonModel.Spec.Mirror
 
+-- DIALECT: flush runFlush
+-- DIALECT: merge runMerge
 namespace Gluon.Driver
 open Gluon Codec
 
